@@ -131,6 +131,12 @@ def _cell_value(field: str, text: Any) -> Any:
         return None
     if field in NUMERIC:
         return float(text)
+    if field == "transaction_type" and isinstance(text, str):
+        import zlib
+
+        # exchanges export "Buy", "buy" or "BUY": the type is case-insensitive
+        style = zlib.crc32(text.encode()) % 3
+        return text if style == 0 else (text.title() if style == 1 else text.lower())
     if field == "timestamp" and isinstance(text, str):
         from rpv.gen import TS_FORMAT, render_ts
 
